@@ -28,6 +28,7 @@ type Obligation struct {
 	FuncKey  string
 	Mode     string
 	Props    []string
+	LightWeak  bool // the reduced goal is a heuristic strengthening (existential witnesses): no early stop on its models
 	LightGoal  string
 	LightExtra []string
 	Results  []*SV  // result values at the return (post obligations)
@@ -89,6 +90,7 @@ type Gen struct {
 	hyps      []*hyp
 	seenIdx   []string
 	seenSet   map[string]bool
+	seenKeys  []string // string terms used as map keys
 	seenKey   map[string]map[string]bool // index term -> element heaps it was used on
 	lockHook func(key string, common *ssa.CallCommon, args []*SV, st *State, reach string, pos token.Pos)
 }
@@ -142,7 +144,7 @@ func newGen(ctx *Ctx, fn *ssa.Function, con *Contract) *Gen {
 		safeCtr: map[string]int{}, unmodelled: map[string]bool{}, allocsByName: map[string][]*ssa.Alloc{}, constLen: map[string]int64{}, maskBit: map[string]string{},
 		backEdges: map[[2]int]bool{}, loopDec: map[*loopInfo]string{}, loopHeadState: map[*loopInfo]*State{}}
 	g.pa = con.Level == "PA"
-	ctx.etypeSorts = sharedElemSorts(ctx, fn)
+	ctx.etypeSorts, ctx.mtypeKeys = sharedElemSorts(ctx, fn)
 	ctx.rawFact = g.addFact
 	ctx.sideFact = func(term string, t types.Type, alloc string) {
 		g.addFact(g.rangeFact(term, t))
@@ -817,7 +819,7 @@ func (g *Gen) loopHead(li *loopInfo, st *State, reach string) *State {
 	// havoc
 	ns := st.clone()
 	cells, heaps, globals, ghosts, all := g.loopWrites(li)
-	for a := range cells {
+	for _, a := range sortedAllocs(cells) {
 		if _, ok := ns.cells[a]; !ok {
 			continue // allocated inside the loop: initialised there
 		}
@@ -829,17 +831,17 @@ func (g *Gen) loopHead(li *loopInfo, st *State, reach string) *State {
 	if all {
 		g.havocAll(ns, "loop")
 	} else {
-		for k := range heaps {
+		for _, k := range sortedKeys(heaps) {
 			g.heapGet(ns, k, g.heapSortsM[k])
 			ns.heaps[k] = g.freshConst("lh."+k, g.heapSortsM[k])
 		}
-		for gl := range globals {
+		for _, gl := range sortedGlobals(globals) {
 			t := gl.Type().(*types.Pointer).Elem()
 			n := g.freshConst("lhg."+gl.Name(), g.sortOf(t))
 			ns.globals[gl] = n
 			g.addFact(g.rangeFact(n, t))
 		}
-		for gh := range ghosts {
+		for _, gh := range sortedKeys(ghosts) {
 			gv := g.cs.Ghosts[gh]
 			ns.ghost[gh] = g.freshConst("lhgh."+gh, g.sortOf(g.resolveType(gv.Type, g.pkgTypes())))
 		}
@@ -850,7 +852,7 @@ func (g *Gen) loopHead(li *loopInfo, st *State, reach string) *State {
 		ns.alloc = na
 	}
 	// every reference held in a havoc'd cell was allocated before this point
-	for a := range cells {
+	for _, a := range sortedAllocs(cells) {
 		if v, ok := ns.cells[a]; ok && v != st.cells[a] {
 			g.addFact(g.allocBound(v, a.Type().(*types.Pointer).Elem(), ns.alloc))
 		}
@@ -1137,10 +1139,10 @@ func (g *Gen) arrayAllocSliced(a *ssa.Alloc) bool {
 
 func (g *Gen) havocAll(st *State, why string) {
 	g.nHavoc++
-	for k := range g.heapSortsM {
+	for _, k := range sortedKeys(g.heapSortsM) {
 		st.heaps[k] = g.freshConst("hv."+k, g.heapSortsM[k])
 	}
-	for gl := range st.globals {
+	for _, gl := range sortedGlobals(st.globals) {
 		t := gl.Type().(*types.Pointer).Elem()
 		if types.Identical(t, errorType) {
 			continue
@@ -1149,7 +1151,8 @@ func (g *Gen) havocAll(st *State, why string) {
 		st.globals[gl] = n
 		g.addFact(g.rangeFact(n, t))
 	}
-	for gh, gv := range g.cs.Ghosts {
+	for _, gh := range sortedKeys(g.cs.Ghosts) {
+		gv := g.cs.Ghosts[gh]
 		st.ghost[gh] = g.freshConst("hvgh."+gh, g.sortOf(g.resolveType(gv.Type, g.pkgTypes())))
 	}
 	na := g.freshConst("hv.alloc", "Int")
@@ -1383,8 +1386,9 @@ func (g *Gen) immutableCapture(fv *ssa.FreeVar) bool {
 // sharedElemSorts finds the SMT sorts that are the element sort of slices with different element
 // types in fn (parameters, values, and fields of the structs they point to): only for those the
 // model needs to know that backing arrays of different element types are distinct.
-func sharedElemSorts(c *Ctx, fn *ssa.Function) map[string]bool {
+func sharedElemSorts(c *Ctx, fn *ssa.Function) (map[string]bool, map[string]bool) {
 	bySort := map[string]map[string]bool{}
+	byMap := map[string]map[string]bool{}
 	seen := map[types.Type]bool{}
 	var visit func(t types.Type, depth int)
 	visit = func(t types.Type, depth int) {
@@ -1405,6 +1409,16 @@ func sharedElemSorts(c *Ctx, fn *ssa.Function) map[string]bool {
 					bySort[so] = map[string]bool{}
 				}
 				bySort[so][types.TypeString(et, nil)] = true
+			}()
+			visit(u.Elem(), depth+1)
+		case *types.Map:
+			func() {
+				defer func() { recover() }()
+				id := sanitize(c.sortOf(u.Key())) + "." + sanitize(c.sortOf(u.Elem()))
+				if byMap[id] == nil {
+					byMap[id] = map[string]bool{}
+				}
+				byMap[id][types.TypeString(u, nil)] = true
 			}()
 			visit(u.Elem(), depth+1)
 		case *types.Pointer:
@@ -1476,7 +1490,13 @@ func sharedElemSorts(c *Ctx, fn *ssa.Function) map[string]bool {
 		}
 		out["Int"] = true
 	}
-	return out
+	mout := map[string]bool{}
+	for id, ts := range byMap {
+		if len(ts) > 1 {
+			mout[id] = true
+		}
+	}
+	return out, mout
 }
 
 // envAtLocals: spec environment in which a name denotes the current value of a local or parameter.
@@ -1718,7 +1738,8 @@ func (g *Gen) keepPrivate(preHeaps map[string]string, st *State, at ssa.Instruct
 	// unexported fields of packages whose code the callee cannot reach
 	if call, ok := at.(*ssa.Call); ok {
 		if callee := call.Call.StaticCallee(); callee != nil && !call.Call.IsInvoke() {
-			for k, cur := range st.heaps {
+			for _, k := range sortedKeys(st.heaps) {
+				cur := st.heaps[k]
 				if !strings.HasPrefix(k, "S.") {
 					continue
 				}
@@ -1788,7 +1809,21 @@ func (g *Gen) keepPrivate(preHeaps map[string]string, st *State, at ssa.Instruct
 			g.addFact(implies(reach, fmt.Sprintf("(= (select %s %s) (select %s %s))", cur, ref, heapBefore(k), ref)))
 		}
 	}
-	for v, sv := range g.vals {
+	var pvals []ssa.Value
+	for v := range g.vals {
+		switch v.(type) {
+		case *ssa.MakeMap, *ssa.MakeSlice, *ssa.Alloc:
+			pvals = append(pvals, v)
+		}
+	}
+	sort.Slice(pvals, func(i, j int) bool {
+		if pvals[i].Pos() != pvals[j].Pos() {
+			return pvals[i].Pos() < pvals[j].Pos()
+		}
+		return pvals[i].Name() < pvals[j].Name()
+	})
+	for _, v := range pvals {
+		sv := g.vals[v]
 		if sv == nil || sv.S == "" {
 			continue
 		}
@@ -1828,4 +1863,29 @@ func isNumeral(s string) bool {
 		}
 	}
 	return true
+}
+
+// Deterministic iteration orders (fresh names and fact order must not depend on map iteration: the
+// solvers are sensitive to both).
+func sortedAllocs(m map[*ssa.Alloc]bool) []*ssa.Alloc {
+	var out []*ssa.Alloc
+	for a := range m {
+		out = append(out, a)
+	}
+	sort.Slice(out, func(i, j int) bool {
+		if out[i].Pos() != out[j].Pos() {
+			return out[i].Pos() < out[j].Pos()
+		}
+		return out[i].Name() < out[j].Name()
+	})
+	return out
+}
+
+func sortedGlobals[V any](m map[*ssa.Global]V) []*ssa.Global {
+	var out []*ssa.Global
+	for g := range m {
+		out = append(out, g)
+	}
+	sort.Slice(out, func(i, j int) bool { return out[i].String() < out[j].String() })
+	return out
 }
